@@ -145,3 +145,32 @@ Theorem C03_helper_per_kinds :
   (forall F f ks pos kw, ks <> map kind_of_val pos -> helper F (f, ks) pos kw = None).
 Proof. exact (conj eq_refl (conj helper_own_key helper_foreign_key)). Qed.
 Print Assumptions C03_helper_per_kinds.
+
+(* powers: `base**exponent` with the base printed at a precedence above the power's own (so that a base
+   which is itself a power gets parentheses) reads back, with Fortran's right-associative `**`, as the
+   tree that was printed -- for every tree, every precedence of the exponent, every following text that
+   does not start with `**` *)
+Theorem C03_power_printing : forall bp xp own, Nat.ltb own bp = true -> power_statement bp xp own.
+Proof. exact power_holds. Qed.
+Print Assumptions C03_power_printing.
+
+(* a printer that hands the base the power's own precedence (pymbolic's StringifyMapper.map_power, which
+   FortranExpressionMapper inherits unless it has a map_power of its own) falsifies the statement:
+   (a0**a1)**a2 is printed a0**a1**a2; with 2, 2, 3 the tree is worth 64 and the text 256 *)
+Theorem C03_power_parentheses_matter : forall bp xp own, Nat.ltb own bp = false ->
+  ~ power_statement bp xp own /\
+  pval wit_pow_values wit_pow_base = 64 /\
+  option_map (fun p => pval wit_pow_values (fst p))
+             (pread (S (psize wit_pow_base)) (pprint bp xp own 0 wit_pow_base)) = Some 256.
+Proof. exact (fun bp xp own H => conj (power_refuted bp xp own H) (wit_pow_base_values bp xp own H)). Qed.
+Print Assumptions C03_power_parentheses_matter.
+
+(* the tree under test (three precedences and the switch read off expressions.py / pymbolic): the
+   statement when a base that is a power is parenthesised (fixes/C03_fortran_power_parentheses.patch),
+   its negation otherwise (open finding power_base_not_parenthesised).  Type-checks for both shapes, and
+   only while the switch agrees with the three numbers. *)
+Theorem C03_power_printing_this_tree :
+  if c03_power_paren then power_statement c03_prec_pow_base c03_prec_pow_exp c03_prec_pow_own
+  else ~ power_statement c03_prec_pow_base c03_prec_pow_exp c03_prec_pow_own.
+Proof. exact (power_either c03_prec_pow_base c03_prec_pow_exp c03_prec_pow_own). Qed.
+Print Assumptions C03_power_printing_this_tree.
